@@ -41,14 +41,16 @@ CONSTANTS NReq,        \* request slots 1..NReq
           Protos,      \* subset of BOOLEAN: TRUE = HTTP/2 requests, FALSE = HTTP/1.1
           Faults,      \* subset of {"connect","handshake","close","upgrade"}: environment faults enabled
           Spurious,    \* BOOLEAN: executor may re-poll a request that was not woken
-          AllowDrop    \* BOOLEAN: the last Pool clone may be dropped while requests are outstanding
+          AllowDrop    \* BOOLEAN: pool absence is explored: the last Pool clone may be dropped while requests are
+                       \* outstanding, and the service may be configured without a pool (`without_pool`: cfg.nopool)
 
 Req     == 1..NReq
 Origins == 1..NOrig
 Dial    == 1..MaxDial          \* a connection has the id of the dial that created it
 NoH     == [c |-> 0, z |-> FALSE]
 
-VARIABLES cfg,          \* [cap, maxIdle, it, alive]  pool configuration; alive = some Pool clone still exists (PoolRef is weak)
+VARIABLES cfg,          \* [cap, maxIdle, it, alive, nopool]  pool configuration; alive = some Pool clone still exists (PoolRef is
+                        \* weak); nopool = ConnectionPoolService::without_pool (every checkout is detached; alive is FALSE throughout)
           connecting,   \* SUBSET Origins                      PoolInner.connecting
           waiting,      \* [Origins -> Seq(Req)]               PoolInner.waiting (senders, by checkout id)
           idle,         \* [Origins -> Seq([c, z, at])]        PoolInner.idle, top of the stack = last
@@ -78,7 +80,8 @@ Has(x) == x \in AsBuilt
 IsOpen(c) == conn[c].st = "open" /\ ~conn[c].busy /\ ~conn[c].up
 
 Init ==
-  /\ cfg \in [cap : Caps, maxIdle : MaxIdles, it : IdleTimeouts, alive : {TRUE}]
+  /\ \E np \in (IF AllowDrop THEN BOOLEAN ELSE {FALSE}) :
+        cfg \in [cap : Caps, maxIdle : MaxIdles, it : IdleTimeouts, alive : {~np}, nopool : {np}]
   /\ connecting = {}
   /\ waiting = [o \in Origins |-> <<>>]
   /\ idle = [o \in Origins |-> <<>>]
@@ -169,11 +172,17 @@ CancelConnP(p, k) ==
 -----------------------------------------------------------------------------
 \* ConnectionPoolService::call -> Pool::checkout
 Issue(r, o, h2) ==
-  /\ cfg.alive
+  /\ cfg.alive \/ cfg.nopool
   /\ req[r].st = "new"
   /\ \A q \in 1..(r-1) : req[q].st # "new"            \* slots are used in order (symmetry breaking)
   /\ LET pw == PopWalk(idle[o]) IN
-     IF pw.found
+     IF cfg.nopool
+     THEN \* Checkout::detached: no pool reference, no waiter, never a delayed drop; it only runs its connector
+          /\ co' = [co EXCEPT ![r] = [st |-> "active", o |-> o, waiter |-> "NoPool", inner |-> "Connecting",
+                                      h |-> NoH, d |-> 0, owner |-> FALSE, pure |-> FALSE, standby |-> FALSE, fin |-> "none"]]
+          /\ chan' = [chan EXCEPT ![r] = [st |-> "txdropped", h |-> NoH]]
+          /\ UNCHANGED <<idle, waiting, connecting>>
+     ELSE IF pw.found
      THEN /\ idle' = [idle EXCEPT ![o] = IF conn[pw.h.c].h2 /\ ~Has("D5")
                                          THEN Append(pw.rest, Entry(pw.h.c))     \* the pool keeps the shared handle
                                          ELSE pw.rest]
@@ -571,7 +580,7 @@ C04issue == [][ev'.e = "Issue" =>
 C04dial == [][ev'.e \in {"DialStart", "BgDialStart"} /\ req[ev'.r].h2 =>
                 ~\E k \in Req : k # ev'.r /\ co[k].owner /\ co[k].o = req[ev'.r].o /\ co[k].st \in {"active", "bg"}]_vars
 \* C01 (pool part): a request that is not cancelled fails only when its own connection attempt failed
-NoSpuriousError == [][ev'.e = "PollErr" => ev'.kind \in {"Connecting", "Handshaking"} \/ ~cfg.alive]_vars
+NoSpuriousError == [][ev'.e = "PollErr" => ev'.kind \in {"Connecting", "Handshaking"} \/ (~cfg.alive /\ ~cfg.nopool)]_vars
 
 \* C03: nobody is stranded (liveness under FairSpec) ...
 C03live == \A r \in Req : (req[r].st = "checkout") ~> (req[r].st # "checkout")
